@@ -2,7 +2,7 @@
    the numerical equality are compared against torch; proved here is the head split / merge index plumbing for ALL extents and both layouts,
    on the reshape sequences generated from the source). *)
 From Coq Require Import List Arith Lia.
-From OV Require Import Model.ViewOps Gen.Mha Proofs.MhaP.
+From OV Require Import Base.Num Model.GhostNorm Model.ViewOps Gen.Mha Proofs.MhaP Proofs.MhaCore.
 Import ListNotations.
 
 Theorem C14_split_heads_correct (L B H hd l b h d : nat) : l < L -> b < B -> h < H -> d < hd ->
@@ -34,6 +34,32 @@ Proof. exact (merge_split_inverse L B H hd l b h d). Qed.
 Theorem C14_split_kv_same (S B H hd : nat) : split_k_ops S B H hd = split_q_ops S B H hd /\ split_v_ops S B H hd = split_q_ops S B H hd.
 Proof. exact (split_kv_same S B H hd). Qed.
 
+(* the attention core with the GENERATED reshapes: q scaled, heads split, scores = q k^T + additive term (masks expanded per batch*head),
+   a row function "softmax" that only reads the S scores of its row, weighted sum of v, heads merged -- entry (l, b, h*hd + d) of the result
+   is head h of sample b attending over the source positions with the feature slice h*hd .. h*hd+hd-1 of Q, K, V (both layouts).
+   Holds for arbitrary ring operations (only WHICH entries meet is at stake), every extent, every additive term. *)
+Theorem C14_attention_core {T} {N : Num T} (softmax : nat -> (nat -> T) -> nat -> T) :
+  (forall S f g, (forall s, s < S -> f s = g s) -> forall s, s < S -> softmax S f s = softmax S g s) ->
+  forall (L S B H hd : nat) (scaling : T) (Q K V : tensor) (bias : nat -> nat -> nat -> T) (q2 k2 v2 o out out_bf : tensor),
+  realises (vrun (split_q_ops L B H hd) (vinit (L, B, H * hd))) (fun x => nmul (Q x) scaling) q2 ->
+  realises (vrun (split_k_ops S B H hd) (vinit (S, B, H * hd))) K k2 ->
+  realises (vrun (split_v_ops S B H hd) (vinit (S, B, H * hd))) V v2 ->
+  (forall bh l d, o (bh, l, d) = sum_n S (fun s => nmul (weights softmax S hd bias q2 k2 bh l s) (v2 (bh, s, d)))) ->
+  realises (vrun (merge_ops_seq_first L B H hd) (vinit (B * H, L, hd))) o out ->
+  realises (vrun (merge_ops_batch_first L B H hd) (vinit (B * H, L, hd))) o out_bf ->
+  forall l b h d, l < L -> b < B -> h < H -> d < hd ->
+  out (l, b, h * hd + d) = ref_out softmax S H hd scaling Q K V bias l b h d /\
+  out_bf (b, l, h * hd + d) = ref_out softmax S H hd scaling Q K V bias l b h d.
+Proof.
+  intros SL L S B H hd scaling Q K V bias q2 k2 v2 o out out_bf Hq Hk Hv Ho Hout Hbf l b h d Hl Hb Hh Hd. split.
+  - exact (attention_core_is_per_head_attention softmax SL L S B H hd scaling Q K V bias q2 k2 v2 o out Hq Hk Hv Ho Hout l b h d Hl Hb Hh Hd).
+  - exact (attention_core_batch_first softmax SL L S B H hd scaling Q K V bias q2 k2 v2 o Hq Hk Hv Ho out_bf Hbf l b h d Hl Hb Hh Hd).
+Qed.
+(* the premises are satisfiable: every tensor has a view through the generated split *)
+Theorem C14_views_exist {T} (L B H hd : nat) (t : @tensor T) :
+  exists t', realises (vrun (split_q_ops L B H hd) (vinit (L, B, H * hd))) t t'.
+Proof. exact (realises_split_exists L B H hd t). Qed.
+
 Example C14_nonvacuous : 1 < 2 /\ 2 < 3 /\ 1 < 2 /\ 2 < 4 /\
   snd (vrun (merge_ops_batch_first 2 3 2 4) (vinit (3 * 2, 2, 4))) (2, 1, 1 * 4 + 2) (2 * 2 + 1, 1, 2).
 Proof. repeat split; try lia. apply (merge_heads_batch_first_correct 2 3 2 4 1 2 1 2); lia. Qed.
@@ -46,3 +72,5 @@ Print Assumptions C14_merge_heads_batch_first_correct.
 Print Assumptions C14_merge_heads_batch_first_functional.
 Print Assumptions C14_merge_split_inverse.
 Print Assumptions C14_split_kv_same.
+Print Assumptions C14_attention_core.
+Print Assumptions C14_views_exist.
